@@ -2,6 +2,7 @@ package rules
 
 import (
 	"fmt"
+	"go/constant"
 	"go/token"
 	"golang.org/x/tools/go/ssa"
 	"sort"
@@ -474,6 +475,55 @@ type srcAt struct {
 // sourcesWithFacts resolves v like deepDefs and keeps, for every leaf, the facts under which that leaf is the
 // value: the facts of the phi edge taken, and the facts at the return of an in-scope helper that produced it.
 func sourcesWithFacts(v ssa.Value, scope []*ssa.Function) []srcAt {
+	return sourcesWithFactsAt(v, scope, nil)
+}
+
+// feasibleReturn: can the call cl have come back through ret, given facts about its other results?  A fact on
+// another result of the same call (a bool flag, or a comparison with nil) that the constant returned there
+// contradicts rules the return out.
+func feasibleReturn(cl *ssa.Call, ret *ssa.Return, facts []flow.Fact) bool {
+	resOf := func(v ssa.Value) (int, bool) {
+		if ex, ok := v.(*ssa.Extract); ok && ex.Tuple == ssa.Value(cl) {
+			return ex.Index, true
+		}
+		return 0, false
+	}
+	for _, f := range facts {
+		if j, ok := resOf(f.Cond); ok && j < len(ret.Results) {
+			if cst, isC := ret.Results[j].(*ssa.Const); isC && cst.Value != nil && cst.Value.Kind() == constant.Bool {
+				if constant.BoolVal(cst.Value) != f.True {
+					return false
+				}
+			}
+			continue
+		}
+		bo, isB := f.Cond.(*ssa.BinOp)
+		if !isB || (bo.Op != token.EQL && bo.Op != token.NEQ) {
+			continue
+		}
+		var other ssa.Value
+		j, ok := resOf(bo.X)
+		if ok {
+			other = bo.Y
+		} else if j, ok = resOf(bo.Y); ok {
+			other = bo.X
+		}
+		if !ok || !ssau.IsNilConst(other) || j >= len(ret.Results) {
+			continue
+		}
+		if ssau.IsNilConst(ret.Results[j]) {
+			isNil := true
+			if (bo.Op == token.EQL) != (isNil == f.True) {
+				return false
+			}
+		}
+	}
+	return true
+}
+
+// sourcesWithFactsAt: as sourcesWithFacts, for a use at which the facts `base` hold; returns of a helper that
+// those facts (or the facts of the way taken) rule out are not followed.
+func sourcesWithFactsAt(v ssa.Value, scope []*ssa.Function, base []flow.Fact) []srcAt {
 	inScope := map[*ssa.Function]bool{}
 	for _, f := range scope {
 		inScope[f] = true
@@ -517,8 +567,12 @@ func sourcesWithFacts(v ssa.Value, scope []*ssa.Function) []srcAt {
 		case *ssa.Extract:
 			if cl, ok := x.Tuple.(*ssa.Call); ok {
 				if sc := cl.Common().StaticCallee(); sc != nil && sc.Blocks != nil && inScope[sc] {
+					known := flow.Expand(append(append([]flow.Fact{}, base...), facts...))
 					for _, b := range sc.Blocks {
 						if ret, ok := b.Instrs[len(b.Instrs)-1].(*ssa.Return); ok && x.Index < len(ret.Results) {
+							if !feasibleReturn(cl, ret, known) {
+								continue
+							}
 							rec(ret.Results[x.Index], with(flow.FactsAt(b)), depth+1)
 						}
 					}
